@@ -78,7 +78,11 @@ CLAIMED = {
             "from well-formed states without raising, for runs of any length (C02). At program level: in an accepted "
             "program the symbol table each operation is type-checked against is contained, binding for binding, in the "
             "table the preprocessor substitutes from (names are declared once; bindings never change) — so the values "
-            "that were range-checked are the values that reach the instructions. The rest of the composition through "
+            "that were range-checked are the values that reach the instructions; code labels are addresses below 2^16; and "
+            "hence every instruction-producing operation of an accepted program (tokens as the parser builds them; a "
+            "relative branch naming a label goes through C08_rel_label_valid instead) is substituted from the final table "
+            "without a missing symbol, expands without raising and yields only instructions whose operands fit their "
+            "machine fields (C08_accepted_program_op_valid). The rest of the composition through "
             "checker.check() is hand-modelled (Model/Preproc.v, differential) and exercised on the real tool in "
             "run/assemble/preprocess mode: assemble->disassemble identity of every emitted operation, no internal "
             "exception in run, assemble (--code/--data), preprocess (--obfuscate).",
